@@ -12,6 +12,7 @@ another ('img', 'img_raw', 'im'), keys nest up to depth 4, digests repeat.
 usage: tree_listing.py [N]  (seed from VERIF_SEED) -> JSON report, last line of stdout
 """
 import logging; logging.disable(logging.CRITICAL)  # noqa: E702
+import _memfs  # noqa: E402
 import hashlib, itertools, json, os, random, sys, tempfile  # noqa: E401
 
 SRC = os.environ.get("PYVC_REPO_SRC", "/repo/src")
@@ -137,8 +138,10 @@ def main():
     rng = random.Random(int(os.environ.get("VERIF_SEED", "1")))
     failures, evals = [], 0
     with tempfile.TemporaryDirectory(dir="/var/tmp") as tmp:
-        odb = HashFileDB(LocalFileSystem(), os.path.join(tmp, "odb"))
-        for _ in range(n):
+        for i in range(n):
+            _memfs.reset()
+            if i % 200 == 0:  # a fresh store every 200 cases: the stand-in's cost stays linear in n
+                odb = HashFileDB(LocalFileSystem(), os.path.join(tmp, f"odb{i // 200}"))
             try:
                 failures += run_one(rng, odb)
             except Exception as e:  # noqa: BLE001
